@@ -45,7 +45,7 @@ func init() {
 		c.Rule(rule2)
 		nb := 0
 		for _, fn := range p.SortedFuncs() {
-			ast.Inspect(fn.Decl.Body, func(n ast.Node) bool {
+			inspectFn(fn, func(n ast.Node) bool {
 				call, ok := n.(*ast.CallExpr)
 				if !ok {
 					return true
@@ -92,7 +92,7 @@ func init() {
 
 		// 3. typestate of removed items in the retrieval loop: finished xor re-inserted, decided by the transmit limit
 		var loopBody *ast.BlockStmt
-		ast.Inspect(get.Decl.Body, func(n ast.Node) bool {
+		inspectFn(get, func(n ast.Node) bool {
 			if fs, ok := n.(*ast.ForStmt); ok && loopBody == nil && fs.Cond != nil {
 				loopBody = fs.Body
 			}
@@ -153,7 +153,7 @@ func init() {
 		c.Floor("limit computations", nl, 1)
 		// every held-out item is re-added
 		reAdd := false
-		ast.Inspect(get.Decl.Body, func(n ast.Node) bool {
+		inspectFn(get, func(n ast.Node) bool {
 			if rs, ok := n.(*ast.RangeStmt); ok {
 				if id, ok := ast.Unparen(rs.X).(*ast.Ident); ok && id.Name == "reinsert" && len(rs.Body.List) == 1 {
 					if es, ok := rs.Body.List[0].(*ast.ExprStmt); ok {
@@ -204,7 +204,7 @@ func init() {
 		}
 		// Prune: each pruned item is finished and deleted
 		var pbody *ast.BlockStmt
-		ast.Inspect(prune.Decl.Body, func(n ast.Node) bool {
+		inspectFn(prune, func(n ast.Node) bool {
 			if fs, ok := n.(*ast.ForStmt); ok && pbody == nil {
 				pbody = fs.Body
 			}
@@ -228,7 +228,7 @@ func init() {
 		// functions that reset the generator (assign constant zero), directly or through callees
 		resetters := map[string]bool{}
 		for _, fn := range p.SortedFuncs() {
-			ast.Inspect(fn.Decl.Body, func(n ast.Node) bool {
+			inspectFn(fn, func(n ast.Node) bool {
 				if as, ok := n.(*ast.AssignStmt); ok && len(as.Lhs) == 1 && len(as.Rhs) == 1 && p.FieldOwner(as.Lhs[0]) == "TransmitLimitedQueue.idGen" {
 					if v, isC := p.ConstInt(as.Rhs[0]); isC && v == 0 {
 						resetters[fn.Name] = true
@@ -279,7 +279,7 @@ func init() {
 		checkLess(c)
 		// range bounds of the retrieval use the same three keys
 		nlit := 0
-		ast.Inspect(get.Decl.Body, func(n ast.Node) bool {
+		inspectFn(get, func(n ast.Node) bool {
 			if cl, ok := n.(*ast.CompositeLit); ok && core.NamedOf(p.TypeOf(cl)) == "limitedBroadcast" {
 				keys := map[string]bool{}
 				for _, el := range cl.Elts {
